@@ -361,12 +361,18 @@ def run_job(job):
                     "typemap.py:wrap_dependent", "typemap.py:resolve")
             l1 = [loc for loc in dict.fromkeys(tr_a) if loc.startswith(keep)]
             l2 = [loc for loc in dict.fromkeys(tr_b) if loc.startswith(keep)]
+        elif job.get("wide") == "resolve":
+            # A suspended at any visit of a line of its resolution (between publishing one table
+            # entry and the next), B suspended inside its own redundant resolution of the same miss
+            l1 = [loc for loc in dict.fromkeys(tr_a) if loc.startswith("typemap.py:resolve")]
+            l2 = [loc for loc in dict.fromkeys(tr_b)
+                  if loc.startswith(("typemap.py:resolve", "typemap.py:mro", "typemap.py:__missing__"))]
         else:
             l1 = [loc for loc in dict.fromkeys(tr_a)
                   if loc.split(":")[1] in f1 and not loc.startswith("<simworld>")]
             l2 = [loc for loc in dict.fromkeys(tr_b)
                   if loc.startswith(("<ovld>", "<simworld>", "typemap.py:"))]
-        nths = (1, 2) if job.get("wide") == "all" else (1,)
+        nths = (1, 2) if job.get("wide") == "all" else (1, 2, 3, 4) if job.get("wide") == "resolve" else (1,)
         pairs = [(x, n, y) for x in l1 for n in nths if tr_a.count(x) >= n for y in l2]
         stats["by_shape"]["pairs:" + job["shape"]] = 0
         for i in range(job["part"], len(pairs), job["stride"]):
@@ -419,6 +425,12 @@ def jobs(tier, seed):
                 for part in range(4):
                     yield {"kind": "fixed_pairs", "name": name, "shape": shape, "victim": victim,
                            "stride": 4, "part": part, "wide": tier == "thorough"}
+    for name in (("chain",) if tier == "quick" else FIXED):
+        for shape in ("S1_first_same", "S3_miss_same"):
+            for victim in (0, 1):
+                for part in range(4):
+                    yield {"kind": "fixed_pairs", "name": name, "shape": shape, "victim": victim,
+                           "stride": 4, "part": part, "wide": "resolve"}
     if tier == "quick":
         for i in range(0, 2400, 25):
             yield {"kind": "seeded", "seed": seed, "index": i, "count": 25, "opcode_every": 8}
